@@ -291,7 +291,9 @@ class _BytesBase:
         return mk_bytes(items_of(o) + list(self._items()))
 
     def __mul__(self, n):
-        return self._mk(list(self._items()) * conc_index(n))
+        from .ints import cost_guard
+
+        return self._mk(list(self._items()) * conc_index(cost_guard(n, "repetition by")))
 
     def __contains__(self, o):
         items = self._items()
